@@ -345,22 +345,22 @@ Proof. vm_compute. reflexivity. Qed.
    truncation (EOF before everything was delivered), EOF on a reset stream, an
    error on a stream that was not reset, missing bytes at the end *)
 Example mux_monitor_rejects_wrong_byte :
-  SpecMux.mon7 10 1 0 false false [SpecMux.mkEv 4 1 8 0 4 0] = false.
+  SpecMux.mon7 true 10 1 0 false false [SpecMux.mkEv 4 1 8 0 4 0] = false.
 Proof. reflexivity. Qed.
 Example mux_monitor_rejects_early_eof :
-  SpecMux.mon7 10 1 0 false false [SpecMux.mkEv 4 1 8 0 4 1; SpecMux.mkEv 4 1 8 1 0 1] = false.
+  SpecMux.mon7 true 10 1 0 false false [SpecMux.mkEv 4 1 8 0 4 1; SpecMux.mkEv 4 1 8 1 0 1] = false.
 Proof. reflexivity. Qed.
 Example mux_monitor_rejects_eof_on_reset :
-  SpecMux.mon7 10 2 0 false false [SpecMux.mkEv 4 1 8 0 4 1; SpecMux.mkEv 4 1 8 1 0 1] = false.
+  SpecMux.mon7 true 10 2 0 false false [SpecMux.mkEv 4 1 8 0 4 1; SpecMux.mkEv 4 1 8 1 0 1] = false.
 Proof. reflexivity. Qed.
 Example mux_monitor_rejects_error_without_reset :
-  SpecMux.mon7 4 0 0 false false [SpecMux.mkEv 4 1 8 0 4 1; SpecMux.mkEv 4 1 8 2 0 1] = false.
+  SpecMux.mon7 true 4 0 0 false false [SpecMux.mkEv 4 1 8 0 4 1; SpecMux.mkEv 4 1 8 2 0 1] = false.
 Proof. reflexivity. Qed.
 Example mux_monitor_rejects_missing_tail :
-  SpecMux.mon7 10 0 0 false false [SpecMux.mkEv 4 1 8 0 4 1] = false.
+  SpecMux.mon7 true 10 0 0 false false [SpecMux.mkEv 4 1 8 0 4 1] = false.
 Proof. reflexivity. Qed.
 Example mux_monitor_accepts_good :
-  SpecMux.mon7 10 1 0 false false [SpecMux.mkEv 4 1 8 0 4 1; SpecMux.mkEv 4 1 8 0 6 1; SpecMux.mkEv 4 1 8 1 0 1] = true.
+  SpecMux.mon7 true 10 1 0 false false [SpecMux.mkEv 4 1 8 0 4 1; SpecMux.mkEv 4 1 8 0 6 1; SpecMux.mkEv 4 1 8 1 0 1] = true.
 Proof. reflexivity. Qed.
 (* the window checker rejects a Data frame beyond the credit and one beyond the frame limit *)
 Example mux_valid_cut_rejects_overrun :
